@@ -457,6 +457,32 @@ def check_sink(ctx, prog):
     bom_before = [e for e in fn_exprs(rd) if e.get('k') == 'int' and const_val(e) in (0xef, 0xbb, 0xbf) and e.get('l', 0) < lp['l']]
     ctx.check(not bom_in_loop and len(bom_before) >= 3, 'C05.sink', rd['pq'], 'read:BOM probed once, before the chunk loop', fwhere(rd, bom_in_loop[0]['l'] if bom_in_loop else None), 'EF BB BF tested before the loop only',
               'the byte-order-mark test runs inside the chunk loop: a U+FEFF character that starts exactly at a chunk boundary inside a string is dropped')
+    # the chunk is handed to the parser as a C string: the terminator stored behind the bytes read lies inside the buffer, i.e. each
+    # read asks for at most length() - 1 bytes (evaluated for buffer lengths 1..6; a file that fills the buffer is otherwise
+    # terminated one byte past it)
+    import bounded
+    rdcalls = [e for e in ir.stmt_exprs(lp['body']) if e.get('k') == 'call' and (e.get('pq') or '').split('::')[-1] == 'read' and len(e.get('a') or []) == 2]
+    zstores = [e for e in ir.stmt_exprs(lp['body']) if e.get('k') == 'bin' and e.get('op') == '=' and const_val(e['y']) == 0 and
+               ((strip_lv(e['x']).get('k') == 'call' and strip_lv(e['x']).get('op') == '[]') or strip_lv(e['x']).get('k') == 'idx')]
+    if len(rdcalls) == 1 and len(zstores) == 1:
+        cnt = rdcalls[0]['a'][1]
+        over = None
+        try:
+            by_id, by_text = bounded.atoms_of(prog, rd, cnt)
+            lens = [t for t in by_text if 'length' in t]
+            if not by_id and len(by_text) == 1 and lens:
+                for L in range(1, 7):
+                    got = bounded.Bound(prog, rd, {}, {lens[0]: L}).ev(cnt)
+                    ctx.evaluations += 1
+                    if got > L - 1 and over is None:
+                        over = (L, got)
+                ctx.check(over is None, 'C05.sink', rd['pq'], 'read:room for the terminator behind every chunk', fwhere(rd, rdcalls[0]['l']), '`%s` <= length() - 1' % pe(cnt),
+                          'with a buffer of %s bytes a chunk of up to %s bytes is read and the terminator is stored behind it, at index %s: a file of at least that size is terminated outside the buffer' % (
+                              over[0] if over else '', over[1] if over else '', over[1] if over else ''))
+            else:
+                ctx.info['chunk_terminator'] = 'read count `%s` is not a function of the buffer length alone' % pe(cnt)
+        except bytesets.Undecidable as u:
+            ctx.info['chunk_terminator'] = 'not evaluable: %s' % u
     # the probe rewinds exactly when it did not find a complete BOM: the guard of seek(0) is evaluated for every probe result
     probe_if = [s_ for s_ in ir.walk_stmts(rd['body']) if s_.get('k') == 'if' and s_.get('l', 0) < lp['l'] and any(e.get('k') == 'call' and (e.get('pq') or '').endswith('::seek') and const_val(e['a'][0]) == 0 for e in ir.stmt_exprs(s_['then']))]
     role = 'read:probe rewinds unless a complete BOM was read'
